@@ -42,6 +42,10 @@ def writer_sequences(run, rng, long_quick=False):
         out.append(('utf-8', [('preamble', {'text': t, 'indent': rng.choice([0, 4])}), ('change', {}), ('file', {}),
                               ('meta', {'metadata': {'path': 'long'}}),
                               ('diff', {'content': pools.LONG_DIFFS[k % len(pools.LONG_DIFFS)]})], 'long-first-line'))
+    if long_quick:
+        # one 64 KiB preamble whose CR LF straddles offset 65536 (block-wise implementations); only where the bytes
+        # clause is judged: decoding 64 KiB back costs TLC too much, encoding and indenting them about half a minute
+        out.append(('utf-8', [('preamble', {'text': 'z' * 65535 + '\r\nsecond line\r\nthird', 'indent': 4})], 'long-first-line-64k'))
     return out
 
 
